@@ -1537,6 +1537,8 @@ class Gen(object):
         self.names = ['p1', 'p2', 'p3', 'p4']
         if rng.random() < 0.5:
             rng.shuffle(self.names)          # portfolios are not created in the alphabetical order of their ids
+        if rng.random() < 0.08:
+            self.names = ['master']          # an account with ONE portfolio whose id equals the reports' total key
 
     def qty(self, pid=None, asset=None):
         rng = self.rng
@@ -1579,8 +1581,8 @@ class Gen(object):
         rng, sc = self.rng, self.sc
         b = sc.broker
         pids = list(sc.model.ports)
-        if not pids or (len(pids) < 4 and rng.random() < 0.06):
-            if not pids and rng.random() < 0.15:
+        if not pids or (len(pids) < len(self.names) and rng.random() < 0.06):
+            if not pids and len(self.names) > 1 and rng.random() < 0.15:
                 self.idle.add(self.names[0])     # the first portfolio stays cash-less and idle
                 self.queue.append(['create', self.names[1]])
             return ['create', self.names[len(pids)]]
